@@ -516,6 +516,26 @@ func (t *tab) shiftRange(tb map[Cell][]Outcome) {
 
 // renderTotal (A7): String / Display / Abbrev return for every kind of value.
 func (t *tab) renderTotal() {
+	var floatCalls []string
+	defer func() {
+		pos := "types/value/value.go"
+		if fn := t.p.Method("types/value", "Type", "String"); fn != nil {
+			pos = t.p.Pos(fn.Pos())
+		}
+		key := "value.String(float) / shortest representation that reads back"
+		ok := len(floatCalls) == 1
+		if ok {
+			c := floatCalls[0]
+			ok = (strings.HasPrefix(c, "fmt.Sprint(") && strings.Contains(c, "iface(float64:")) ||
+				(strings.HasPrefix(c, `fmt.Sprintf("%v", `) && strings.Contains(c, "iface(float64:")) ||
+				(strings.HasPrefix(c, "strconv.FormatFloat(") && strings.HasSuffix(c, ", -1, 64)"))
+		}
+		if ok {
+			t.s.OK("A8", key, pos, floatCalls[0])
+		} else {
+			t.s.Bad("A8", key, pos, "a float must be rendered with Go's shortest round-trip formatting (fmt.Sprint, %v, or FormatFloat with precision -1), otherwise aton(toa(x)) differs from x for some finite floats; it is rendered by "+strings.Join(floatCalls, "; "))
+		}
+	}()
 	for _, mn := range []string{"String", "Display", "Abbrev"} {
 		fn := t.p.Method("types/value", "Type", mn)
 		if fn == nil {
@@ -532,6 +552,13 @@ func (t *tab) renderTotal() {
 				loops := map[string]int{}
 				in.Hooks.Call = func(in *absint.Interp, callee *ssa.Function, a []absint.Val, site ssa.Instruction) (absint.Val, bool) {
 					if callee.Pkg != nil && (callee.Pkg.Pkg.Path() == "fmt" || callee.Pkg.Pkg.Path() == "strconv") {
+						if mn == "String" && t.kname[k] == "float" {
+							var ks []string
+							for _, x := range a {
+								ks = append(ks, absint.Key(x))
+							}
+							floatCalls = append(floatCalls, callee.String()+"("+strings.Join(ks, ", ")+")")
+						}
 						return absint.NewVar(callee.Name(), types.Typ[types.String]), true
 					}
 					return nil, false
